@@ -10,6 +10,11 @@ def run(chk):
     chk.assume("_calculate_operation_size(q) >= 0 and 0 for empty checkpoints (trusted arithmetic summary of json.dumps length)")
     chk.trust("python semantics of the stated subset as encoded by pyvc (DESIGN 2.3)")
     chk.trust("z3 5.1.0")
+    from . import lockset as _L, state_contracts as _S, executor_contracts as _X
+    _L.lock_order(chk, "C05.state.lock_order")          # no deadlock between the batcher (merging a response) and a producer (completing a context): every synchronous caller is released
+    _S.mark_orphans(chk, "C05")                          # what the producer does under _parent_done_lock (no second lock, terminates)
+    _S.create_checkpoint(chk, "C05", want=("C03", "C06", "C10"))
+    _X.resubmitter_total(chk, "C05")                     # the timer-driven refresh goes through create_checkpoint and leaves the batcher running
     batcher.check_collect(chk, "C05")
     batcher.size_function_contract(chk, "C05")
     batcher.check_consumer(chk, "C05")
